@@ -120,9 +120,13 @@ func main() {
 		seed := fs.Uint64("seed", envSeed(), "")
 		idx := fs.Uint64("idx", 0, "")
 		dump := fs.Bool("case", false, "print the generated case")
+		runseed := fs.Uint64("runseed", 0, "run seed (overrides seed/idx)")
 		_ = fs.Parse(os.Args[3:])
 		d := core.Drivers[id]
 		rs := core.SeedFor(*seed, *idx)
+		if *runseed != 0 {
+			rs = *runseed
+		}
 		c := d.Generate(core.NewRand(rs), *tier, *idx)
 		if c == nil {
 			fmt.Println("generator returned no case for this index")
